@@ -424,6 +424,14 @@ class Body:
             k = t["t"]
             if k == "goto":
                 succ[i].append(t["target"])
+            elif k == "switch" and self._const_discr(b, t) is not None:
+                # constant condition (cfg!(debug_assertions) etc.): only the taken edge exists
+                v = self._const_discr(b, t)
+                tgt = t["otherwise"]
+                for av, tb in t["arms"]:
+                    if int(av) == v:
+                        tgt = tb
+                succ[i].append(tgt)
             elif k == "switch":
                 seen = []
                 for _, tb in t["arms"]:
@@ -450,6 +458,24 @@ class Body:
             for s in ss:
                 pred[s].append(i)
         self._pred = pred
+
+    @staticmethod
+    def _const_discr(blk, t):
+        d = t["discr"]
+        if d["k"] == "const" and "int" in d:
+            return int(d["int"])
+        if d["k"] in ("copy", "move") and not d["pl"]["p"]:
+            l = d["pl"]["l"]
+            val = None
+            for st in blk["stmts"]:
+                if st["s"] == "assign" and not st["pl"]["p"] and st["pl"]["l"] == l:
+                    rv = st["rv"]
+                    if rv["rv"] == "use" and rv["op"]["k"] == "const" and "int" in rv["op"]:
+                        val = int(rv["op"]["int"])
+                    else:
+                        val = None
+            return val
+        return None
 
     def succs(self, bb):
         if self._succ is None:
@@ -596,41 +622,52 @@ class Body:
         return seen
 
     def sites_between(self, a, b):
-        """all sites that lie on some normal path from site a (exclusive) to site b (exclusive),
-        not passing through b / a again"""
+        """all sites X such that some normal path a -> X -> b exists that does not pass `a` again
+        (b itself may be revisited: if b sits in a loop that does not contain a, the earlier
+        iterations of b and of everything in that loop are `between`)"""
         out = []
-        if a.bb == b.bb and a.key() < b.key():
-            blk = self.blocks[a.bb]
-            lo = a.key()[1]
-            hi = b.key()[1]
-            for i in range(len(blk["stmts"])):
-                if lo < i < hi:
+        same = a.bb == b.bb and a.key() < b.key()
+        fwd = self.reachable_from(a.bb, stop=[a.bb]) - {a.bb}
+        bwd = self.reaches(b.bb, stop=[a.bb]) - {a.bb}
+        b_cyclic = b.bb in fwd and b.bb in bwd  # b reachable from itself without passing a
+        ablk = self.blocks[a.bb]
+        if same:
+            for i in range(len(ablk["stmts"])):
+                if a.key()[1] < i < b.key()[1]:
                     out.append(Site(a.bb, i))
-            # also loop paths a -> ... -> back to same block before b: ignore if block not in a cycle
-            if a.bb in self.reachable_from(a.bb):
-                pass  # handled below
-            else:
+            if not b_cyclic:
                 return out
-        fwd = self.reachable_from(a.bb, stop=[b.bb])
-        bwd = self.reaches(b.bb, stop=[a.bb])
-        mid = (fwd & bwd) - {a.bb, b.bb}
-        blk = self.blocks[a.bb]
-        if not (a.bb == b.bb and a.key() < b.key()):
-            for i in range(len(blk["stmts"])):
+        if not same:
+            if not (b.bb in fwd):
+                return out
+            for i in range(len(ablk["stmts"])):
                 if i > a.key()[1]:
                     out.append(Site(a.bb, i))
-            if a.i is not None:
-                pass
-            blkb = self.blocks[b.bb]
-            hi = b.key()[1]
-            for i in range(len(blkb["stmts"])):
-                if i < hi:
-                    out.append(Site(b.bb, i))
+        mid = (fwd & bwd) - {b.bb}
         for m in sorted(mid):
             for i in range(len(self.blocks[m]["stmts"])):
                 out.append(Site(m, i))
             out.append(Site(m, None))
-        return out
+        bblk = self.blocks[b.bb]
+        if b_cyclic:
+            for i in range(len(bblk["stmts"])):
+                if not (same and a.key()[1] <= i):
+                    out.append(Site(b.bb, i))
+                elif same and i > b.key()[1]:
+                    out.append(Site(b.bb, i))
+            out.append(Site(b.bb, None))
+        elif not same:
+            for i in range(len(bblk["stmts"])):
+                if i < b.key()[1]:
+                    out.append(Site(b.bb, i))
+        # dedupe
+        seen = set()
+        res = []
+        for x in out:
+            if x not in seen:
+                seen.add(x)
+                res.append(x)
+        return res
 
     def loops(self):
         """natural loops: list of (header, set(blocks))"""
